@@ -269,7 +269,11 @@ func genModule(pkgs []*packages.Package, m *Module, byName map[string]*Module, o
 		}
 		rr.Funcs = append(rr.Funcs, fi)
 		if rep.Trusted {
-			rr.Trusted = append(rr.Trusted, m.Name+": "+rep.Func+" (contract assumed, not verified)")
+			if fs := m.Spec.Funcs[key]; fs != nil && fs.ViewOf != "" {
+				rr.Trusted = append(rr.Trusted, m.Name+": "+rep.Func+" (weaker view of the contract verified in module "+m.PkgName+"."+fs.ViewOf+"; clause subset checked)")
+			} else {
+				rr.Trusted = append(rr.Trusted, m.Name+": "+rep.Func+" (contract assumed, not verified)")
+			}
 		}
 		if rr.Locals == nil {
 			rr.Locals = map[string][]sym.LocalInfo{}
